@@ -39,6 +39,30 @@ func TokenStarts(src []byte) map[int]bool {
 	return starts
 }
 
+// TokenEnds maps the start offset of every token/comment to its end offset (exclusive).
+func TokenEnds(src []byte) map[int]int {
+	fs := token.NewFileSet()
+	tf := fs.AddFile("x.go", -1, len(src))
+	var s scanner.Scanner
+	s.Init(tf, src, nil, scanner.ScanComments)
+	ends := map[int]int{}
+	for {
+		pos, tok, lit := s.Scan()
+		if tok == token.EOF {
+			break
+		}
+		if tok == token.SEMICOLON && lit == "\n" {
+			continue
+		}
+		n := len(lit)
+		if n == 0 || tok == token.SEMICOLON {
+			n = len(tok.String())
+		}
+		ends[tf.Offset(pos)] = tf.Offset(pos) + n
+	}
+	return ends
+}
+
 // SortedStarts returns the token starts as a sorted list.
 func SortedStarts(m map[int]bool) []int {
 	out := make([]int, 0, len(m))
@@ -49,7 +73,10 @@ func SortedStarts(m map[int]bool) []int {
 	return out
 }
 
-var artefacts = []string{"%!", "<nil>", "PANIC=", "BadExpr", "BadStmt", "BadDecl"}
+var artefacts = []string{"<nil>", "PANIC=", "BadExpr", "BadStmt", "BadDecl"}
+
+// what package fmt writes when verbs and operands do not fit: %!v(MISSING), %!d(string=x), %!(EXTRA ..), %!)(BADINDEX), %!(NOVERB)
+var fmtArtefact = regexp.MustCompile(`%!(.|\pL)?\((MISSING|EXTRA |BADINDEX|BADWIDTH|BADPREC|NOVERB|PANIC=|[A-Za-z_.*\[\]0-9{} ]+=)`)
 
 // C07Failure is one violated clause for one diagnostic.
 type C07Failure struct {
@@ -77,28 +104,48 @@ func CheckC07(f *File, starts map[int]bool, d Diag) []C07Failure {
 	}
 	if d.HasFix {
 		switch {
-		case !inFile(d.From) || !inFile(d.To):
+		case !inFile(d.From) || !inFile(d.To) || tf.Offset(d.To) > len(f.Src):
 			out = append(out, C07Failure{"fix-outside-file", "fix range is not inside the analysed file"})
 		case d.From > d.To:
 			out = append(out, C07Failure{"fix-inverted", fmt.Sprintf("fix range From=%d > To=%d", d.From, d.To)})
+		default:
+			// an edit replaces whole tokens: it starts where a token/comment starts and ends where one ends;
+			// an edit that starts at a comment covers exactly that comment
+			from, to := tf.Offset(d.From), tf.Offset(d.To)
+			ends := f.tokenEnds()
+			endSet := f.tokenEndSet()
+			switch {
+			case !starts[from] && from != to:
+				out = append(out, C07Failure{"fix-not-token-aligned", fmt.Sprintf("fix range starts at offset %d inside a token", from)})
+			case from != to && !endSet[to]:
+				out = append(out, C07Failure{"fix-not-token-aligned", fmt.Sprintf("fix range [%d,%d) does not end at the end of a token or comment", from, to)})
+			case from != to && isCommentAt(f.Src, from) && ends[from] != to:
+				out = append(out, C07Failure{"fix-not-token-aligned", fmt.Sprintf("fix range [%d,%d) starts at a comment that ends at %d", from, to, ends[from])})
+			}
 		}
 	}
 	if strings.TrimSpace(d.Text) == "" {
 		out = append(out, C07Failure{"empty-text", "diagnostic message is empty"})
 	}
-	for _, a := range artefacts {
-		if strings.Contains(d.Text, a) {
-			// the artefact must not simply be quoted source text
-			if a == "<nil>" || a == "%!" {
-				if quotedFromSource(f, d, a) {
+	if m := fmtArtefact.FindString(d.Text); m != "" && !strings.Contains(string(f.Src), m) {
+		out = append(out, C07Failure{"text-artefact", fmt.Sprintf("message contains the fmt error marker %q: %s", m, clip(d.Text, 160))})
+	} else {
+		for _, a := range artefacts {
+			if strings.Contains(d.Text, a) {
+				// the artefact must not simply be quoted source text
+				if a == "<nil>" && quotedFromSource(f, d, a) {
 					continue
 				}
+				out = append(out, C07Failure{"text-artefact", fmt.Sprintf("message contains %q: %s", a, clip(d.Text, 160))})
+				break
 			}
-			out = append(out, C07Failure{"text-artefact", fmt.Sprintf("message contains %q: %s", a, clip(d.Text, 160))})
-			break
 		}
 	}
 	return out
+}
+
+func isCommentAt(src []byte, off int) bool {
+	return off+1 < len(src) && src[off] == '/' && (src[off+1] == '/' || src[off+1] == '*')
 }
 
 // quotedFromSource: the analysed file itself contains the artefact text (e.g. a string literal "%!s"), so its
@@ -199,6 +246,7 @@ var (
 	reFuncDecl   = regexp.MustCompile(`(?m)^func (\w+)\(m dsl\.Matcher\) \{`)
 	reMatchArg   = regexp.MustCompile("(?s)m\\.Match\\((.*?)\\)\\.")
 	rePkgCall    = regexp.MustCompile(`(^|[^\w.$])([a-z][a-z0-9]*)\.([A-Z]\w*)\(`)
+	rePkgName    = regexp.MustCompile(`(^|[^\w.$])([a-z][a-z0-9]*)\.([A-Z]\w*)`)
 	reBuiltin    = regexp.MustCompile(`(^|[^\w.$])(append|new|len|copy|cap|make|delete|panic)\(`)
 	reStrLit     = regexp.MustCompile("`[^`]*`|\"(?:[^\"\\\\]|\\\\.)*\"")
 )
@@ -233,6 +281,14 @@ func RuleSubjects() map[string][]Subject {
 					}
 					for _, m := range reBuiltin.FindAllStringSubmatch(pat, -1) {
 						seen[Subject{Name: m[2]}] = true
+					}
+				}
+			}
+			// Report / Suggest / Where texts name the API as well ("possible sync.OnceFunc misuse", "use strings.Cut")
+			for _, lit := range reStrLit.FindAllString(body, -1) {
+				for _, m := range rePkgName.FindAllStringSubmatch(lit[1:len(lit)-1], -1) {
+					if path, ok := stdQual[m[2]]; ok {
+						seen[Subject{Pkg: path, Name: m[3], Qual: m[2]}] = true
 					}
 				}
 			}
@@ -340,6 +396,9 @@ func CheckC20(p *Pkg, f *File, checker string, d Diag) *C20Finding {
 		call = under
 	}
 	if call == nil {
+		if _, hand := handSubjects[checker]; hand {
+			return checkMethodSubject(p, f, subs, d)
+		}
 		return nil
 	}
 	sp, qual, name := calleeSpelling(call.Fun)
@@ -369,6 +428,61 @@ func CheckC20(p *Pkg, f *File, checker string, d Diag) *C20Finding {
 		return nil
 	}
 	return &C20Finding{Subject: sub.Family(), Spelled: sp, Resolves: describeObj(qobj) + " ." + name.Name}
+}
+
+// checkMethodSubject: the diagnostic sits at/in a call x.Name(...) where Name is spelled like a function of the
+// checker's subject package but x is not that package's qualifier (a method call, a field call, another package).
+// The selected object must then be a function or method declared in the subject package (e.g. (*flag.FlagSet).String).
+func checkMethodSubject(p *Pkg, f *File, subs []Subject, d Diag) *C20Finding {
+	byName := map[string][]Subject{}
+	for _, s := range subs {
+		if s.Pkg != "" {
+			byName[s.Name] = append(byName[s.Name], s)
+		}
+	}
+	if len(byName) == 0 {
+		return nil
+	}
+	var call *ast.CallExpr
+	var sel *ast.SelectorExpr
+	ast.Inspect(f.AST, func(n ast.Node) bool {
+		if n == nil {
+			return false
+		}
+		if _, isFile := n.(*ast.File); !isFile && (n.Pos() > d.Pos || n.End() <= d.Pos) {
+			return false
+		}
+		if c, ok := n.(*ast.CallExpr); ok {
+			fun := c.Fun
+			for {
+				pe, ok := fun.(*ast.ParenExpr)
+				if !ok {
+					break
+				}
+				fun = pe.X
+			}
+			if s, ok := fun.(*ast.SelectorExpr); ok && len(byName[s.Sel.Name]) > 0 {
+				call, sel = c, s
+			}
+		}
+		return true
+	})
+	if call == nil {
+		return nil
+	}
+	obj := p.Info.Uses[sel.Sel]
+	if fn, ok := obj.(*types.Func); ok && fn.Pkg() != nil {
+		for _, s := range byName[sel.Sel.Name] {
+			if s.Pkg == fn.Pkg().Path() {
+				return nil
+			}
+		}
+	}
+	recv := ""
+	if t := p.Info.TypeOf(sel.X); t != nil {
+		recv = " on a value of type " + t.String()
+	}
+	return &C20Finding{Subject: byName[sel.Sel.Name][0].Family(), Spelled: types.ExprString(sel), Resolves: describeObj(obj) + recv}
 }
 
 // checkNilSubject: nilValReturn's subject is the identifier spelled nil in the condition `x == nil` of the
